@@ -1,5 +1,5 @@
 (** C10 — correspondence ([agree]) and the spec-side predicate on the implementation's output ([holds]). *)
-From V Require Import Base.Util Gql.Ast Writer.Wop Ts.TsType Ts.TsDen C10.Model C10.Spec C10.Domain C10.DenLemmas C10.JsdocProofs C10.NameProofs C10.ResolverProofs C10.ResolverArgs C10.ResolverDen C10.Parse.
+From V Require Import Base.Util Gql.Ast Writer.Wop Ts.TsType Ts.TsDen C10.Model C10.Spec C10.Domain C10.DenLemmas C10.JsdocProofs C10.NameProofs C10.ResolverProofs C10.ResolverArgs C10.ResolverDen C10.Parse C10.ReadBack.
 
 (** result of one run of a Rust printer: the coalesced recorded operations, the returned error,
     or the caught panic (site numbered as in Model.res) *)
@@ -31,11 +31,19 @@ Inductive case :=
    that follows a [write_for "export type "/"type "], resp. a [write "…type "] in the resolvers file) *)
 | CNames (items : list name_item).
 
+(** model = implementation on every run; and, so that [holds] (which reads TEXT) and the theorems (which
+    speak about the model's STRUCTURE) are about the same thing: reading the model's own text back with
+    the spec-side reader gives the model's structured declarations ([ReadBack]) *)
 Definition agree (c : case) : bool :=
   match c with
   | CDoc _ doc sruns rruns =>
-      forallb (fun r => res_eqb (print_schema (fst r) doc) (snd r)) sruns
-      && forallb (fun r => res_eqb (print_resolvers (fst (fst r)) (snd (fst r)) doc) (snd r)) rruns
+      forallb (fun r => res_eqb (print_schema (fst r) doc) (snd r)
+                        && (negb (wf_schema (fst r) doc && scalar_texts_plain (fst r) doc) || readback_schema_ok (fst r) doc)) sruns
+      && forallb (fun r => res_eqb (print_resolvers (fst (fst r)) (snd (fst r)) doc) (snd r)
+                           && (match snd (fst r) with
+                               | O => negb (nodup_keys (map tname (typedefs doc))) || readback_resolvers_ok (fst (fst r)) doc
+                               | _ => true
+                               end)) rruns
   | CJsdoc items => forallb (fun i => wops_eqb (print_description (fst i)) (snd i)) items
   | _ => true    (* the tie of these is the CDoc case of the same run *)
   end.
